@@ -46,11 +46,14 @@ static J gen_dat(Chooser &ch)
   c["compositions"] = static_cast<int>(ch.range(0, 5));
   c["grain_compositions"] = static_cast<int>(ch.range(0, 2));
   c["n_grains"] = static_cast<int>(ch.range(0, 3));
-  const bool conv = dim == 3 && w.fr.sph && ch.chance(60);
+  // 'convert spherical' is a property of the data file, not of the world: R, longitude, latitude rows are converted to x, y, z for
+  // cartesian worlds as well (20% of them)
+  const bool conv = dim == 3 && (w.fr.sph ? ch.chance(60) : ch.chance(20));
   c["convert_spherical"] = conv;
   c["comma"] = ch.flip();
   c["sph"] = w.fr.sph; c["R"] = w.fr.R; c["H"] = w.fr.H;
   c["option_order"] = static_cast<int>(ch.range(0, 5));
+  if (ch.chance(30)) c["remarks"] = static_cast<int>(ch.range(1, 31));
   // the documentation gives option lines no fixed place: 30% of the files carry some of them between or after the data rows
   if (ch.chance(30)) { c["late_options"] = static_cast<int>(ch.range(1, 4)); c["late_after"] = static_cast<int>(ch.range(0, 30)); }
   J rows = J::arr();
@@ -73,7 +76,13 @@ static J gen_dat(Chooser &ch)
             }
           r.push(J(spell(ch, x))); r.push(J(spell(ch, z))); r.push(J(spell(ch, depth)));
         }
-      else if (conv) { r.push(J(spell(ch, w.fr.R - depth))); r.push(J(spell(ch, q.at("nat")[0].num()))); r.push(J(spell(ch, q.at("nat")[1].num()))); r.push(J(spell(ch, depth))); }
+      else if (conv && w.fr.sph) { r.push(J(spell(ch, w.fr.R - depth))); r.push(J(spell(ch, q.at("nat")[0].num()))); r.push(J(spell(ch, q.at("nat")[1].num()))); r.push(J(spell(ch, depth))); }
+      else if (conv)
+        {
+          // the cartesian point written as radius, longitude, latitude (degrees)
+          const double X = q.at("p")[0].num(), Y = q.at("p")[1].num(), Z = q.at("p")[2].num(), rr = std::sqrt(X * X + Y * Y + Z * Z);
+          r.push(J(spell(ch, rr))); r.push(J(spell(ch, std::atan2(Y, X) / DEG))); r.push(J(spell(ch, rr > 0 ? std::asin(Z / rr) / DEG : 0.0))); r.push(J(spell(ch, depth)));
+        }
       else { r.push(J(spell(ch, q.at("p")[0].num()))); r.push(J(spell(ch, q.at("p")[1].num()))); r.push(J(spell(ch, q.at("p")[2].num()))); r.push(J(spell(ch, depth))); }
       rows.push(r);
       if (ch.chance(15)) rows.push(J("# a comment line " + std::to_string(i)));
@@ -94,6 +103,8 @@ static std::string dat_text(const J &c, const J *override_rows = nullptr)
     }
   if (c.at("convert_spherical").boolean()) opts.push_back("# convert spherical = true");
   std::rotate(opts.begin(), opts.begin() + static_cast<long>(static_cast<size_t>(c.at("option_order").num()) % opts.size()), opts.end());
+  // a remark behind the value, as in the repository's own '# convert spherical = false #true' (the tool reads fixed positions)
+  if (c.has("remarks")) for (size_t i = 0; i < opts.size(); ++i) if ((static_cast<size_t>(c.at("remarks").num()) >> i) & 1u) opts[i] += (i % 2 ? " # as used in the paper" : " #remark");
   std::string t = "# generated data file\n";
   const size_t n_late = c.has("late_options") ? std::min(opts.size(), static_cast<size_t>(c.at("late_options").num())) : 0;
   for (size_t i = 0; i + n_late < opts.size(); ++i) t += opts[i] + "\n";
@@ -331,7 +342,7 @@ int main(int argc, char **argv)
 {
   return run_main("C17", argc, argv,
   {
-    {"dat_table", "worlds (1..4 features, optional cross section) x data files: dim 2/3, 0..5 compositions, 0..2 grain compositions x 0..3 grains, convert spherical, comma or space separated, option lines in any order and (30%) partly between or after the data rows, comment lines interleaved, 1..30 rows with coordinates spelled in four number formats; oracle: header names = the requested columns, every row = input tokens verbatim + the library's values printed with the stream's default precision. Non-trivial: row inside a feature with non-zero values in >=2 column groups", 40, gen_dat, check_dat},
+    {"dat_table", "worlds (1..4 features, optional cross section) x data files: dim 2/3, 0..5 compositions, 0..2 grain compositions x 0..3 grains, convert spherical, comma or space separated, option lines in any order, (30%) partly between or after the data rows, (30%) with a remark behind the value, convert spherical also for cartesian worlds, comment lines interleaved, 1..30 rows with coordinates spelled in four number formats; oracle: header names = the requested columns, every row = input tokens verbatim + the library's values printed with the stream's default precision. Non-trivial: row inside a feature with non-zero values in >=2 column groups", 40, gen_dat, check_dat},
     {"malformed_rows", "the same with one row broken (too few / too many columns, a token that is not a number or only starts like one: 'abc', '1.2.3', '120e3m', '7d5', '15:30', or an empty field ','), or (20%) a 2D file that sets 'convert spherical = true' with the option lines in any order: the tool must exit non-zero or print an error, never a complete table", 25, gen_malformed, check_malformed},
   });
 }
